@@ -528,9 +528,10 @@ func runGated(r *ev.Run, dir string, cfg cfgT, seed uint64, policy string) (stri
 			}
 			h.rd.Close()
 		}
-		// settle: nothing left to persist, purger has run; up to 3 nudges
+		// settle: nothing left to persist, purger has run; up to 40 further persister rounds (a merge that is still
+		// running on a loaded machine legitimately owns a file no snapshot names yet)
 		orphans := []string{}
-		for nudge := 0; nudge <= 3; nudge++ {
+		for nudge := 0; nudge <= 40; nudge++ {
 			_ = corpus.WaitPersisted(rn.Idx, corpus.Config{IndexType: scorch.Name, OnDisk: true})
 			// wait for an unchanged listing
 			var last string
@@ -559,7 +560,7 @@ func runGated(r *ev.Run, dir string, cfg cfgT, seed uint64, policy string) (stri
 			}
 		}
 		if len(orphans) > 0 {
-			fail(rn, nil, "orphan-files-at-quiescence", fmt.Sprintf("after writing stopped and 3 nudges these *.zap files are named by no snapshot: %v", orphans))
+			fail(rn, nil, "orphan-files-at-quiescence", fmt.Sprintf("after writing stopped and 40 further persister rounds these *.zap files are named by no snapshot: %v", orphans))
 		}
 	}
 	res, err := sched.Run(sc, obs, final)
@@ -655,7 +656,7 @@ func runGrowth(r *ev.Run, dir string, cfg cfgT, seed uint64, id int) {
 		s := mon.ScorchOf(idx)
 		store := filepath.Join(path, "store")
 		gp := growthPoint{Batches: n}
-		for nudge := 0; nudge <= 3; nudge++ {
+		for nudge := 0; nudge <= 40; nudge++ {
 			_ = corpus.WaitPersisted(idx, corpus.Config{IndexType: scorch.Name, OnDisk: true})
 			var last string
 			same := 0
@@ -689,7 +690,7 @@ func runGrowth(r *ev.Run, dir string, cfg cfgT, seed uint64, id int) {
 		}
 		pts = append(pts, gp)
 		if gp.Orphans > 0 {
-			r.Violation("growth/orphan-files-at-quiescence", fmt.Sprintf("%s: %d orphan *.zap after %d batches and 3 nudges", cfg.Name, gp.Orphans, n), map[string]any{"config": cfg.Name, "seed": seed, "points": pts})
+			r.Violation("growth/orphan-files-at-quiescence", fmt.Sprintf("%s: %d orphan *.zap after %d batches and 40 further persister rounds", cfg.Name, gp.Orphans, n), map[string]any{"config": cfg.Name, "seed": seed, "points": pts})
 			return
 		}
 	}
